@@ -45,6 +45,16 @@ class HistStream(Stream):
                 "for op in d['ops']:\n    ok,m=drv.apply(op); print(op, ok, drv.observe(ok,None)['free'])\n")
 
 
+class HubStream(HistStream):
+    """a structure linked to >= 2 distinct neighbours is cut or removed; the history continues around the freed
+    pins (bypass connections, re-adding the structure, exposing, solving)"""
+    name = "hub"
+
+    def generate(self, rng, tier):
+        return [wirelib.gen_history(rng, nstruct=rng.randint(3, 5), scenario="hub")
+                for _ in range(120 if tier == "quick" else 1500)]
+
+
 def m_readd_after_cut(st, d, v):
     return False
 
@@ -57,7 +67,7 @@ TRUSTED = [
 ]
 
 if __name__ == "__main__":
-    main("C07", [HistStream()],
+    main("C07", [HistStream(), HubStream()],
          level_text="props/C07.v: the invariant relating the solver's tables (connections, connections_list, free_pins) to the "
                     "present structures is preserved by every operation, hence holds after every history; free pins are exactly "
                     "the unconnected pins of the remaining components. The tie replays random add/connect/cut/remove/re-add/"
